@@ -259,6 +259,33 @@ theorem junction_examples :
     junctionSafe [47, 47, 33, 32, 120, 10] [125, 41] = true ∧
     junctionSafe [102, 40, 41, 59] [125, 41] = true := by decide
 
+/-! ## Package-level names allocated from inside a function (round 4)
+
+  `objectName` gives a package-level object that is first mentioned inside a function — in practice a named type
+  declared in a function body — its name through the CURRENT context's `newVariable(…, true)`, which counts the name in
+  that context and in all its parents. Histories contain this as `Op.obj`, so `names_distinct` covers it: the name is
+  in scope (and distinct from every other name in scope) in the function, in the closures nested in it and in the
+  package. The clause of the invariant that carries this is `Inv.pkg`: every package-level name is counted in EVERY
+  live context. -/
+
+/-- asking again for an object that already has a name returns it and allocates nothing -/
+theorem objectName_assigned (minify : Bool) (o : Nat) (name nm : Name) (pk : Bool) (tbl : List (Nat × Name))
+    (chain : List Scope) (h : (if pk then tbl.lookup o else lookupObj o chain) = some nm) :
+    objectName minify o name pk tbl chain = some (chain, tbl, nm) := by
+  simp [objectName, h]
+
+/-- a first request is exactly `newVariable` in the current context -/
+theorem objectName_new (minify : Bool) (o : Nat) (name : Name) (tbl : List (Nat × Name)) (chain c : List Scope) (nm : Name)
+    (h : tbl.lookup o = none) (hn : newVariable minify name true chain = some (c, nm)) :
+    objectName minify o name true tbl chain = some (c, (o, nm) :: tbl, nm) := by
+  simp [objectName, h, hn]
+
+/-- the shape of the seeded change: a package-level name counted in the package context only breaks the invariant
+    (it is not reserved in the function being translated, whose next package-level allocation may repeat it) -/
+theorem root_only_allocation_breaks (nm : Name) (fc p : Scope) (ps : List Scope) (pk : List Name)
+    (h0 : fc.vars.cnt nm = 0) : ¬ Inv { chain := allocRootOnly nm (fc :: p :: ps), pkgNames := pk ++ [nm] } :=
+  root_only_breaks nm fc p ps pk h0
+
 /-- Not claimed: the corresponding statement with minification off (`name`, `name$1`, …) needs a side condition on the
     requested names (no Go identifier encodes to another one followed by `$<digits>`); it belongs to C01. -/
 def names_distinct_plain : Prop :=
